@@ -1,4 +1,5 @@
 import IpcModel.RecvSetP
+import IpcModel.Lemmas.RecvSetOrder
 import IpcModel.Gen
 /-!
 # C06 — a receiver set reports every event of every member exactly once
@@ -8,9 +9,10 @@ list (`wake` appends a registered member unless present); `poll` hands out at mo
 iteration of `select`'s per-token loop (non-blocking receive until would-block; on closure: report, deregister, close).
 Actions `send`, `dropSender`, `add`, `poll`, `drain` interleave arbitrarily (sender threads vs the selecting thread).
 
-Full statement of the clause that is **not yet proved** here (`C06_once_ordered`; checked by the harness on every run):
-the concatenation of all select results restricted to member m equals `map msg (sent to m, in order) ++ [closed]?`, the
-closed event at most once, after all messages, only when no sender exists.
+`C06_once_ordered` is the per-member statement over all interleavings: the concatenation of all select results
+restricted to member m equals `map msg (sent to m, in order) ++ [closed]?`, the closed event at most once, after all
+messages, only when no sender exists.  Member ids are assumed pairwise distinct (`OthersDiffer`; the real set hands them
+out from a counter — `C06_ids` is checked by the harness on every run).
 -/
 namespace C06
 open RSetP
@@ -31,7 +33,44 @@ theorem C06_select_enabled (st : St) (hI : Inv st) (hidle : st.pc = .idle) (k : 
     (hm : st.members[k]? = some m) (hp : pending m) : (step st .poll).isSome :=
   poll_enabled st hI hidle k m hm hp
 
+/-- **C06_once_ordered** — for every execution from a state where nothing has been reported for member `k` (id `i`, queue
+`q0`): at every later point the events reported for `i` are `del.map msg ++ [closed]?` where `del ++ (still queued) =
+q0 ++ (everything sent to k since)`, in order; and if the closure was reported then nothing is queued, no sender exists
+and the member is deregistered — so the closure comes once, last, and only after every message. -/
+theorem C06_once_ordered (as : List Act) (st st' : St) (k i : Nat) (m : Member)
+    (hI : Inv2 st) (hod : OthersDiffer st k i) (hm : st.members[k]? = some m) (hid : m.id = i) (hcl : m.closedReported = false)
+    (hrep : evsOf i (allRep st) = []) (h : run st as = some st') :
+    ∃ del m', st'.members[k]? = some m' ∧
+      evsOf i (allRep st') = del.map some ++ (if m'.closedReported then [none] else []) ∧
+      del ++ m'.q = m.q ++ sentTo k as ∧
+      (m'.closedReported = true → m'.q = [] ∧ m'.senders = 0 ∧ m'.registered = false) := by
+  have ha : Acct st k i [] m := ⟨hm, hid, by simp [hrep, hcl]⟩
+  obtain ⟨del, m', ha', _, he⟩ := acct_run as st st' k i [] m hI hod ha h
+  refine ⟨del, m', ha'.1, ha'.2.2, by simpa using he, fun hc => ?_⟩
+  have := (inv2_run st st' as hI h).closedDone k m' ha'.1 hc
+  exact ⟨this.2.1, this.2.2, this.1⟩
+
+/-- the structural invariant (`ready` and the batch hold distinct registered members; a member whose closure was reported is
+deregistered, drained and has no sender) holds for the empty set and is preserved by every step -/
+theorem C06_inv2_init (cap : Nat) : Inv2 ⟨cap, [], [], .idle, []⟩ :=
+  ⟨by simp, by simp [toksOf], by simp, by simp [toksOf], by intro k m hm; simp at hm⟩
+/-- any set of not yet added channels (whatever is queued on them, whatever senders they have) is a valid start -/
+theorem C06_inv2_fresh (cap : Nat) (ms : List Member) (h : ∀ m ∈ ms, m.registered = false ∧ m.closedReported = false) :
+    Inv2 ⟨cap, ms, [], .idle, []⟩ := by
+  refine ⟨by simp, by simp [toksOf], by simp, by simp [toksOf], ?_⟩
+  intro k m hm hc
+  have := (h m (List.mem_of_getElem? hm)).2
+  rw [this] at hc; cases hc
+theorem C06_inv2_step (st st' : St) (a : Act) (hI : Inv2 st) (h : step st a = some st') : Inv2 st' := inv2_step st st' a hI h
+
 /-- the events buffer of the real code (generated constant) is positive, so every `poll` hands out at least one token -/
 theorem C06_cap_pos : 0 < Gen.eventsCap := by decide
+
+/-! non-vacuity: two channels with traffic queued before `add`, cap 1 (more ready members than the events buffer), a sender
+drop, interleaved polls and drains: member 0 (id 10) is reported 5, 6, closed; member 1 (id 20) is reported 7 -/
+def demoSt : St := ⟨1, [⟨10, [5], 1, false, false⟩, ⟨20, [], 1, false, false⟩], [], .idle, []⟩
+def demoActs : List Act := [.add 0, .add 1, .send 1 7, .send 0 6, .dropSender 0, .poll, .drain, .drain, .drain, .drain, .poll, .drain, .drain, .drain]
+example : (run demoSt demoActs).map (fun st => (evsOf 10 (allRep st), evsOf 20 (allRep st)))
+    = some ([some 5, some 6, none], [some 7]) := by decide
 
 end C06
